@@ -166,10 +166,9 @@ package app
 //@   modifies *
 //@   panics
 //@ func fsFile.decReadersCount(ff)
-//@   modifies *
+//@   modifies ff.readersCount
 //@   panics
 //@ func fsFile.NewReader(ff) r, err
 //@   props C08
 //@   requires ff != nil && ffInv(ff)
 //@   modifies *
-
